@@ -87,7 +87,7 @@ func VerifC13RangeIter() {
 //verif:expect called
 //verif:maxpaths 6000 40000
 func VerifC13RangeSlice() {
-	lim := int64(verifBound(3, 6))
+	lim := int64(verifBound(2, 6))
 	a, b, c := c13RangeParam("a", lim, false), c13RangeParam("b", lim, false), c13RangeParam("c", int64(verifBound(2, 3)), true)
 	r, err := c13NewRange(a, b, c)
 	verifAssert(err == nil, "no error")
